@@ -260,6 +260,32 @@ def array_pass(ctx, np):
                         if not np.array_equal(np.array(a, dtype=float), exp):
                             ctx.violation('setitem', case, exp.tolist(), np.array(a).tolist(), key='array:setitem')
                             break
+                # __setitem__ with a multivector value: same keys in the same order -> the addressed entries of each blade
+                # take the value's coefficient of THAT blade; same blades in another order -> either refused (the unchanged
+                # library raises ValueError) or assigned blade by blade, never paired by position
+                if len(shape) == 1:
+                    for perm_case in ('same-order', 'permuted'):
+                        Xc = mk(kx)
+                        before = {k: np.array(v, dtype=float).copy() for k, v in zip(Xc.keys(), Xc.values())}
+                        vk = list(kx) if perm_case == 'same-order' else list(reversed(kx))
+                        vals = {k: float(100 + 7 * i) for i, k in enumerate(sorted(kx))}
+                        Y = MultiVector.fromkeysvalues(alg, tuple(vk), [vals[k] for k in vk])
+                        case = {'sig': sig, 'shape': list(shape), 'container': container, 'value': 'multivector, ' + perm_case, 'keys': kx, 'value_keys': vk}
+                        ctx.case(('setitem-mv', case), tag='setitem-mv')
+                        try:
+                            Xc[1] = Y
+                        except Exception:
+                            ctx.count('setitem-mv-refused:' + perm_case)
+                            after = {k: np.array(v, dtype=float) for k, v in zip(Xc.keys(), Xc.values())}
+                            if any(not np.array_equal(after[k], before[k]) for k in before):
+                                ctx.violation('setitem', case, 'a refused assignment leaves the target untouched', 'modified', key='array:setitem-mv:refused-but-modified')
+                            continue
+                        after = {k: np.array(v, dtype=float) for k, v in zip(Xc.keys(), Xc.values())}
+                        for k in before:
+                            exp = before[k].copy(); exp[1] = vals[k]
+                            if not np.array_equal(after[k], exp):
+                                ctx.violation('setitem', {**case, 'blade': k}, exp.tolist(), after[k].tolist(), key=f'array:setitem-mv:{perm_case}')
+                                break
                 # shape / itermv
                 n = int(np.prod(shape))
                 its = list(X.itermv())
